@@ -20,14 +20,16 @@ RULE_VERTEX = (
     "non-trivial = Ok with >= 2 vertices, or Err InputPluginFailed with >= 1 vertex; distinct by full case")
 RULE_EDGE = (
     "the REAL edge plugin (EdgeRtreeInputPluginBuilder.build on WKT geometry / road class / vehicle restriction files "
-    "written per case) processes one query: 0..100 linestrings (degenerate, horizontal, vertical, two-segment, and "
+    "written per case) processes one query: 0..313 linestrings (degenerate, horizontal, vertical, two-segment, and "
     "3-6 point hairpins / closed rings / ramp loops / culs-de-sac / L-shapes in 8 orientations whose centroid lies outside "
     "the box of their end points, in networks large enough for internal r-tree nodes) whose geo centroid is exactly on the "
     "1/8-degree grid, queries on / near centroids and end points, road_classes in the query (integers or names through the parser mapping, "
     "unparseable values) excluding the nearest 0..5 edges, vehicle_parameters making the nearest 1..3 edges "
     "inadmissible (verdict per edge from the real VehicleRestriction::valid), tolerance around the distance of the "
     "nearest ADMISSIBLE edge in every unit, boundary values, high-latitude cases where the nearer-by-degrees excluded "
-    "edge is beyond the tolerance and the admissible one within. Two cases in five are SEQUENCES of 2-6 queries on ONE plugin instance: the bit-identical coordinate "
+    "edge is beyond the tolerance and the admissible one within. Family many_inadmissible_nearer: networks of 70-313 edges in which the 0/8/40/63/64/65/100/300 nearest edges are "
+    "inadmissible (by class, by vehicle height, mixed) and exactly one farther edge is admissible, with and without a "
+    "tolerance it satisfies; random crowded networks (70-130 edges, 80-99 % inadmissible). Two cases in five are SEQUENCES of 2-6 queries on ONE plugin instance: the bit-identical coordinate "
     "repeated with different vehicle parameters / road classes / with and without destination, interleaved with other "
     "coordinates and failing queries, each judged history-free by model and specification. Compared as for vertices. "
     "non-trivial = Ok with >= 2 edges, or Err InputPluginFailed with >= 1 edge; distinct by full case")
@@ -81,7 +83,7 @@ def run(chk):
             only = None
         if only not in ("vertex", "edge"):
             only = "vertex"
-    for stream, n, rule in (("vertex", 500 if quick else 6000, RULE_VERTEX), ("edge", 700 if quick else 6000, RULE_EDGE)):
+    for stream, n, rule in (("vertex", 500 if quick else 6000, RULE_VERTEX), ("edge", 800 if quick else 6000, RULE_EDGE)):
         if only not in (None, stream):
             continue
         r = vf.run_stream(binp, stream, n, chk.seed, os.path.join(chk.outdir, stream), replay=chk.replay)
